@@ -58,6 +58,37 @@ REGISTRY = {
         engine="E7 structural + E3 flow",
         ref="DESIGN.md §4 C10",
     ),
+    "C12": dict(
+        text="Index-bookkeeping clauses decided on the CFG/AST for every batch composition: the per-frame lists feeding the "
+        "batch dict are appended exactly once per completed iteration after the end-of-stream test, from the frame's "
+        "own key, and reset per batch; the per-sample loops split ALL sibling arrays of find_local_peaks with the one "
+        "mask `sample_inds == b`; the top-k cut is torch.topk over the peak values (largest, k=max_instances) whose "
+        "indices select the peaks; the bottom-up max_instances cut slices a list sorted by score descending; each crop "
+        "record takes its frame/video index, size and eff_scale from the same zip tuple as its image, in a fresh dict, "
+        "appended once unless the sample is all-NaN.",
+        note="Trusted: ast, networkx, torch.topk semantics. Not decided: numerical independence of a sample from its "
+        "batch-mates (depends on the network and on batched kernels).",
+        technique="append-pairing path rules + parallel-array mask agreement + def-use of zip tuples",
+        engine="E7 structural + E3 flow",
+        ref="DESIGN.md §4 C12",
+    ),
+    "C14": dict(
+        text="Decided: evaluation-mode statelessness - for every forward() under sleap_nn/architectures and the six "
+        "inference modules a must-written-set dataflow (self-callees summarised) shows that no attribute written during "
+        "the call is read before that write on any path, and no container attribute is mutated in place (one exemption "
+        "with reason: MaxPool2dWithSamePadding.padding); decoder bookkeeping - each block appended to decoder_stack "
+        "records the stride it was built with in the same iteration, and the running stride halves afterwards; "
+        "selection - Decoder.forward emits one output per block plus current_strides, backbones return that dict, "
+        "Model.forward picks outputs[strides.index(head.output_stride)] for the head/layer pair built in the same "
+        "order; channels - confmap heads have len(part_names) (centroid 1) and the PAF head 2*len(edges) channels "
+        "through a 1x1 stride-1 same-padded conv, and the bottom-up decoder's output keys are the head class names.",
+        note="Trusted: ast, networkx, Conv2d(1x1, stride 1, 'same') preserving spatial size. Not decided: the "
+        "configuration grid -> spatial shape arithmetic (no sound shape domain for nn.Module constructors in reach), "
+        "determinism of the torch kernels themselves.",
+        technique="must-written-set dataflow (read-before-write on self) + append pairing + def-use selection rules",
+        engine="E1 effects (self-state) + E7 structural",
+        ref="DESIGN.md §4 C14",
+    ),
     "C17": dict(
         text="The order consumed by grouping is shown, by inter-procedural def-use, to be the output of toposort_edges on "
         "the scorer's own edge list (single writer of sorted_edge_inds, positional hand-over through group_instances -> "
